@@ -17,7 +17,7 @@ pub enum PItem {
     NonVerbose { id: u8, ecu: u8, ext: bool, body: Vec<u8>, be: bool },
     Flst { serial: u8, name: u8, size: u8, pkgs: u8, buf: u8, width: u8, be: bool },
     /// `near_miss` != 0: looks like a data package (5 arguments, first one "FLDA") but the trailing marker is something else
-    Flda { serial: u8, nr: u8, len: u8, width: u8, signed: bool, be: bool, #[serde(default)] near_miss: u8 },
+    Flda { serial: u8, nr: u8, len: u8, width: u8, signed: bool, be: bool, #[serde(default)] near_miss: u8, #[serde(default)] src: u8 },
     Flfi { serial: u8, width: u8, be: bool },
     /// CAN frame as produced by the asc converter (frame id, data)
     Can { frame: u8, len: u8 },
@@ -168,7 +168,7 @@ pub fn build(items: &[PItem]) -> Vec<(DltMessage, bool)> {
                 e.ascii("FLST");
                 out.push((msg(b"ECU1", *be, Some((0x41, e.n, b"SYS\0", b"FILE")), e.p), false));
             }
-            PItem::Flda { serial, nr, len, width, signed, be, near_miss } => {
+            PItem::Flda { serial, nr, len, width, signed, be, near_miss, src } => {
                 let mut e = Enc::new(*be);
                 e.ascii("FLDA");
                 e.int(*serial as u64 % 3, *width, false);
@@ -182,7 +182,14 @@ pub fn build(items: &[PItem]) -> Vec<(DltMessage, bool)> {
                     _ => e.utf8("FLDA"), // (string coding differs)
                 }
                 // only a real data package (first and last argument "FLDA") may be dropped by the plugin
-                out.push((msg(b"ECU1", *be, Some((0x41, e.n, b"SYS\0", b"FILE")), e.p), near_miss % 4 == 0));
+                // (sent by the usual SYS/FILE, by another context of that application, by the same context id of another application ...)
+                let (apid, ctid): (&[u8; 4], &[u8; 4]) = match src % 8 {
+                    5 => (b"SYS\0", b"JOUR"),
+                    6 => (b"NAV\0", b"FILE"),
+                    7 => (b"NAV\0", b"MAP\0"),
+                    _ => (b"SYS\0", b"FILE"),
+                };
+                out.push((msg(b"ECU1", *be, Some((0x41, e.n, apid, ctid)), e.p), near_miss % 4 == 0));
             }
             PItem::Flfi { serial, width, be } => {
                 let mut e = Enc::new(*be);
@@ -233,7 +240,7 @@ pub fn pitem() -> impl Strategy<Value = PItem> {
         3 => (any::<u8>(), any::<u8>(), any::<u8>(), prop_oneof![Just(0u8), Just(1), Just(2), Just(0x80), Just(0x81), any::<u8>()], any::<u8>(), body()).prop_map(|(inst, svc, lenf, mtype, rc, body)| PItem::SomeIp { inst, svc, lenf, mtype, rc, body }),
         4 => (any::<u8>(), any::<u8>(), any::<bool>(), body(), prop::bool::weighted(0.2)).prop_map(|(id, ecu, ext, body, be)| PItem::NonVerbose { id, ecu, ext, body, be }),
         3 => (0u8..3, any::<u8>(), any::<u8>(), any::<u8>(), any::<u8>(), any::<u8>(), prop::bool::weighted(0.2)).prop_map(|(serial, name, size, pkgs, buf, width, be)| PItem::Flst { serial, name, size, pkgs, buf, width, be }),
-        4 => (0u8..3, any::<u8>(), any::<u8>(), any::<u8>(), prop::bool::weighted(0.3), prop::bool::weighted(0.2), prop_oneof![3 => Just(0u8), 1 => 1u8..4]).prop_map(|(serial, nr, len, width, signed, be, near_miss)| PItem::Flda { serial, nr, len, width, signed, be, near_miss }),
+        4 => (0u8..3, any::<u8>(), any::<u8>(), any::<u8>(), prop::bool::weighted(0.3), prop::bool::weighted(0.2), (prop_oneof![3 => Just(0u8), 1 => 1u8..4], prop_oneof![3 => Just(0u8), 2 => 5u8..8])).prop_map(|(serial, nr, len, width, signed, be, (near_miss, src))| PItem::Flda { serial, nr, len, width, signed, be, near_miss, src }),
         2 => (0u8..3, any::<u8>(), prop::bool::weighted(0.2)).prop_map(|(serial, width, be)| PItem::Flfi { serial, width, be }),
         2 => (any::<u8>(), any::<u8>()).prop_map(|(frame, len)| PItem::Can { frame, len }),
         2 => (any::<u8>(), any::<u8>()).prop_map(|(nargs, odd)| PItem::Muniic { nargs, odd }),
